@@ -1064,7 +1064,7 @@ impl<'c> Gen<'c> {
         let after = lambda(&[], Body::single(app("display", vec![string(&format!("{}>", tag))])));
         let n = self.c.range(1, 3);
         let step = self.c.range(1, 9);
-        let pick = if self.opts.winds { self.c.below(10) } else { [0usize, 1, 6, 8, 9][self.c.below(5)] };
+        let pick = if self.opts.winds { self.c.below(11) } else { [0usize, 1, 6, 8, 9][self.c.below(5)] };
         match pick {
             0 => {
                 // generator: the continuation of a let binding is re-entered n times
@@ -1302,6 +1302,35 @@ impl<'c> Gen<'c> {
                         Box::new(Body::single(Expr::Let(
                             vec![("r".into(), call(app("mk", vec![app("box", vec![int(1)])]), vec![int(depth)]))],
                             Box::new(Body { defs: vec![], exprs: after }),
+                        ))),
+                    ))),
+                )
+            }
+            10 if self.opts.handlers && self.opts.errors => {
+                // an error raised inside a call/cc receiver is caught by an enclosing handler; the continuation
+                // captured there is invoked later and delivers its argument to the handler form's continuation
+                self.feat("call/cc");
+                self.feat("with-handler");
+                self.feat("continuation-reentry");
+                self.feat("reentry-after-caught-error");
+                let r = self.raising();
+                Expr::Let(
+                    vec![("kb".into(), app("box", vec![boolean(false)])), ("cnt".into(), app("box", vec![int(0)]))],
+                    Box::new(Body::single(Expr::Let(
+                        vec![(
+                            "r".into(),
+                            Expr::WithHandler(
+                                Box::new(lambda(&["e"], Body::single(int(100 + step)))),
+                                Box::new(Expr::CallCC(Box::new(lambda(&["k"], Body { defs: vec![], exprs: vec![app("set-box!", vec![var("kb"), var("k")]), r, int(0)] })))),
+                            ),
+                        )],
+                        Box::new(Body::single(iff(
+                            app("<", vec![app("unbox", vec![var("cnt")]), int(n)]),
+                            begin(vec![
+                                app("set-box!", vec![var("cnt"), app("+", vec![app("unbox", vec![var("cnt")]), int(1)])]),
+                                call(app("unbox", vec![var("kb")]), vec![app("*", vec![int(7), app("unbox", vec![var("cnt")])])]),
+                            ]),
+                            var("r"),
                         ))),
                     ))),
                 )
